@@ -858,6 +858,53 @@ def rule_clock_fallback(ctx) -> None:
                               f"a clock text that cannot be parsed leaves `{v}` at a fixed instant", f"when the given clock text cannot be parsed the handler leaves `{v}` None and the `{v} is None` "
                               "fill-in then takes datetime.now(): the logical clock silently becomes the wall clock")
     ctx.floor("C01.CLOCK", "try-wrapped clock parses followed by a wall-clock fill-in", n_try, 1)
+    # (c) the turn's logical clock has two spellings - ctx.now (ISO text) and ctx.now_ms (the console's --now-ms, run_smoke_turn:
+    # now=None, now_ms=<int>); the orchestrator treats either as the clock.  A wall-clock reading that stands in for the logical
+    # time (it sits behind a test that reads one of the spellings) must sit behind BOTH: with only ctx.now consulted, a turn
+    # clocked in milliseconds takes its recency window and score from the calendar day of the replay.
+    spellings = {"now", "now_ms"}
+    n_fill = 0
+    for mn in CLOCK_PARSE_MODULES:
+        if mn not in ctx.prog.modules:
+            continue
+        for fn in ctx.prog.module(mn).funcs.values():
+            ps = set(fn.params)
+            if not ps:
+                continue
+            walls = [x for x in walk_no_defs(fn.node) if _is_clock(x)]
+            if not walls:
+                continue
+            cfg, rd = ctx.cfg(fn), ctx.rd(fn)
+            for w in walls:
+                at = cfg.node_containing(w)
+                if not at:
+                    continue
+                tests = [(t, b) for t, _pol, b in cfg.guards(at[0])]
+                # inline form: <value> if <test> else <wall clock>
+                for x in walk_no_defs(at[0].ast) if at[0].ast is not None else []:
+                    if isinstance(x, ast.IfExp) and any(y is w for br in (x.body, x.orelse) for y in ast.walk(br)):
+                        tests.append((x.test, at[0]))
+                if not tests:
+                    continue
+                read = set()
+                for t, b in tests:
+                    cn = b.pred[0][0] if (b is not at[0] and b.pred) else b
+                    sl = rd.slice([t], cn)
+                    for y in sl.nodes():
+                        if isinstance(y, ast.Call) and dotted(y.func) == "getattr" and len(y.args) >= 2 and isinstance(y.args[0], ast.Name) and y.args[0].id in ps and const_str(y.args[1]):
+                            read.add(const_str(y.args[1]))
+                        elif isinstance(y, ast.Attribute) and isinstance(y.value, ast.Name) and y.value.id in ps:
+                            read.add(y.attr)
+                if not (read & spellings):
+                    continue
+                n_fill += 1
+                missing = sorted(spellings - read)
+                ctx.check(not missing, "C01.CLOCK", ctx.okey(f"{fn.qual}/wall-clock-only-without-any-logical-clock"), fn.loc(w),
+                          f"`{src(w)[:40]}` is reached only when neither ctx.now nor ctx.now_ms supplies the time",
+                          f"`{src(w)[:40]}` stands in for the turn's time after consulting ctx.{sorted(read & spellings)[0]} only - ctx.{missing[0] if missing else ''} is never looked at: a turn whose logical "
+                          "clock is given in that spelling (the console's --now-ms, run_smoke_turn) takes the reference time of the recency window and score from the wall clock, and two replays on "
+                          "different days log different k_returned / score_stats")
+    ctx.floor("C01.CLOCK", "wall-clock stand-ins for the logical time", n_fill, 1)
 
 
 def rule_file_times(ctx) -> None:
